@@ -585,11 +585,15 @@ class Producer(object):
             Params:
             failed_payloads - list of (payload, failure) tuples
             """
+            if self.stopping:
+                # The producer is being stopped, so nothing may be sent
+                # anymore. What failed here failed because stop() cancelled
+                # it: stop() itself cancels the callers' deferreds.
+                return
             # Do we have retries left?
-            if self._req_attempts >= self._max_attempts or self.stopping:
-                # No, no retries left (or the producer is being stopped, so
-                # nothing may be sent anymore): fail each failed_payload with
-                # its associated failure
+            if self._req_attempts >= self._max_attempts:
+                # No, no retries left, fail each failed_payload with its
+                # associated failure
                 for p, f in failed_payloads_with_errs:
                     if not isinstance(f, Failure):
                         # A broker error code arrives as a bare exception
